@@ -103,7 +103,7 @@ pub fn build_tree<R: RefTarget>(
         let m2 = if joint.is_nan() { f64::INFINITY } else { (joint - (logu - DELTA_MAX)).abs() / (1.0 + joint.abs().max(logu.abs())) };
         let mut alpha = (joint - joint0).exp().min(1.0);
         if alpha.is_nan() {
-            alpha = 1.0; // min(1, NaN) in the IEEE minNum sense; the statement is silent here
+            alpha = 0.0; // a NaN energy is a rejected proposal (the statement is silent; comparisons skip it)
         }
         return Tree {
             xm: xn.clone(),
